@@ -55,6 +55,12 @@ func Job(id int, kind string, g *Gauge) func() {
 		case "panic":
 			g.Cur--
 			panic(fmt.Sprintf("boom-%d", id))
+		case "timed-panic": // takes 5 virtual ms, then panics
+			time.Sleep(5 * time.Millisecond)
+			g.Cur--
+			panic(fmt.Sprintf("boom-%d", id))
+		case "timed": // takes 5 virtual ms
+			time.Sleep(5 * time.Millisecond)
 		case "slow":
 			vsched.Yield()
 			vsched.Yield()
